@@ -8,7 +8,8 @@ Event menu (one per call outcome named in the property): ok unary; method raises
 declared but ``header=None``; method returns a non-Stream; unknown method; bad request_version; parameter
 rejection (wrong column type / null in non-optional); producer error at first / middle / last step; exchange
 error; client close after 0/1/all batches; cancel after 0/1; ``on_log`` raising during a unary, during stream
-init (before the header) and during a stream turn.
+init (before the header) and during a stream turn; calls whose arguments the client itself cannot encode (wrong
+Python type, integer overflow, lone surrogate, None, unary and stream methods).
 
 Oracle: (a) the event's own client-visible trace equals the reference interpreter's (``prog.expected``) where
 the property defines it; raw-framed events must be answered by an error stream; (b) the probe after the event
@@ -35,7 +36,7 @@ LEVEL = "model_checking"
 ENGINE = "E2-BFS"
 SHARDS = {"quick": 8, "thorough": 16}
 RULE = (
-    "every history of length <= D over a 35-event menu of call outcomes on one fresh real connection per history, "
+    "every history of length <= D over a 45-event menu of call outcomes on one fresh real connection per history, "
     "probe echo(n) after each event; non-trivial = history whose last event is not the plain ok-unary; distinct = "
     "(transport, history)"
 )
@@ -145,8 +146,24 @@ LOGRAISE = {
 }
 
 
+# calls whose arguments the CLIENT cannot put on the wire (whatever it raises, and whether it raises before or
+# after it started writing, the connection must be usable afterwards)
+BADARG: dict[str, tuple[str, dict[str, Any]]] = {
+    "badarg-unary-str-for-int": ("unary", {"script": "{}", "x": "seven"}),
+    "badarg-unary-list-for-int": ("unary", {"script": "{}", "x": [1, 2]}),
+    "badarg-unary-int-overflow": ("unary", {"script": "{}", "x": 2**70}),
+    "badarg-unary-surrogate": ("unary", {"script": "\ud800", "x": 1}),
+    "badarg-unary-none": ("unary", {"script": None, "x": 1}),
+    "badarg-echo-float": ("echo", {"n": 1.5}),
+    "badarg-produce-surrogate": ("produce", {"script": "\ud800"}),
+    "badarg-produce-bytes": ("produce", {"script": b"\xff"}),
+    "badarg-exch-int": ("exch", {"script": 2**70}),
+    "badarg-produce-hdr-surrogate": ("produce_h", {"script": "\udfff"}),
+}
+
+
 def menu(ctx: Ctx) -> list[str]:
-    return list(ev_calls()) + RAW + list(LOGRAISE) + list(ALT)
+    return list(ev_calls()) + RAW + list(LOGRAISE) + list(ALT) + list(BADARG)
 
 
 def do_alt(conn: Conn, name: str, trace: list[Any]) -> str | None:
@@ -229,6 +246,30 @@ def run_history(kind: str, hist: tuple[str, ...]) -> list[dict[str, Any]]:
                         rec["own"] = None
                 elif ev in ALT:
                     rec["own"] = do_alt(conn, ev, trace)
+                elif ev in BADARG:
+                    method, kwargs = BADARG[ev]
+                    sess = None
+                    try:
+                        got = getattr(conn.proxy, method)(**kwargs)
+                        if method not in ("unary", "echo"):
+                            sess = got
+                            if method.startswith("produce"):
+                                next(iter(sess), None)
+                            else:
+                                sess.exchange(prog.input_batch([1]))
+                    except mem.Deadlock:
+                        raise
+                    except Exception:  # noqa: BLE001 - the refusal itself is C02's subject; only the aftermath is judged here
+                        pass
+                    finally:
+                        if sess is not None:
+                            try:
+                                sess.close()
+                            except mem.Deadlock:
+                                raise
+                            except Exception:  # noqa: BLE001
+                                pass
+                    rec["own"] = None
                 elif ev in RAW:
                     res = do_raw(conn, ev)
                     rec["own"] = None if res["error"] is not None and not res["data"] else f"raw request {ev} answered {res}"
